@@ -5,6 +5,7 @@ package sim
 import (
 	"fmt"
 	"math"
+	"math/rand"
 	"os"
 	"path/filepath"
 	"regexp"
@@ -24,6 +25,9 @@ func init() {
 			"sequentially (1 thread, run-to-block) and under the drawn schedule (in either order). Non-trivial: ≥ 2 worker goroutines each received ≥ 1 record and ≥ 1 context " +
 			"switch happened; distinct = distinct scheduler trace hashes (sequence of (goroutine, site, kind)) among those",
 		Gen: func(rt *rapid.T, tier string) any {
+			if rapid.IntRange(0, 2399).Draw(rt, "huge") == 613 {
+				return genHugePipe(rt)
+			}
 			return genPipe(rt, tier, pipeGenOpts{algos: []string{"compare", "compareW", "fbp", "tbe"}, faults: true, minTax: 4, maxTax: 14, maxTrees: 14, rootedRef: true,
 				maxFaults: 5, zeroTrees: true, nexusFeed: true})
 		},
@@ -47,9 +51,28 @@ func sameFloats(a, b []float64) bool {
 	return true
 }
 
+// genHugePipe: about one case in a thousand has just over a thousand taxa (code paths meant for large inputs), two or three
+// trees, a producer feed and a few threads. The trees come from a local generator seeded by one drawn number.
+func genHugePipe(rt *rapid.T) *PipeCase {
+	r := rand.New(rand.NewSource(int64(rapid.IntRange(1, 1<<30).Draw(rt, "hugeseed"))))
+	n := rapid.SampledFrom([]int{1001, 1025}).Draw(rt, "hugesize")
+	base := RandomTree(taxa(n, "h"), r, 2, true)
+	pc := &PipeCase{Algo: rapid.SampledFrom([]string{"tbe", "fbp", "compare"}).Draw(rt, "hugealgo"), Feed: "chan", BufSz: 4096, Chunk: 4096}
+	pc.Ref = base.Newick()
+	for i := rapid.IntRange(2, 3).Draw(rt, "hugetrees"); i > 0; i-- {
+		pc.Recs = append(pc.Recs, Rec{Text: related(base, r, 3, 1).Newick()})
+	}
+	pc.Cpus = rapid.SampledFrom([]int{2, 3, 4}).Draw(rt, "hugecpus")
+	pc.Sched = genSched(rt)
+	return pc
+}
+
 func execC11(t *testing.T, c any, o *Outcome) {
 	pc := c.(*PipeCase)
 	fpos, fkind := pc.hasFault()
+	if len(pc.Ref) > 20000 {
+		o.Probe("over-a-thousand-taxa")
+	}
 	var base, got *PipeResult
 	if pc.Sched.Seed%2 == 0 {
 		// the scheduled run comes first: whatever the process memoises is then first touched by several workers
